@@ -81,6 +81,65 @@ type C08Node struct {
 	T    *C08GCText
 	F    [2]*C08Node
 	Z    bool
+	PI   *interface{} // a member of type *interface{}: its own opcode (OpInterfacePtr), its own frame bookkeeping
+}
+
+// recursive shapes with members of type *interface{} (opcode OpInterfacePtr) in different slot positions: the frame
+// of the held value has to start behind the frame of the recursive call at every depth
+type C08PI1 struct {
+	V    *interface{}
+	Next *C08PI1
+}
+type C08PI2 struct {
+	Next *C08PI2
+	Tag  string
+	V    *interface{}
+	N    int
+}
+type C08PI3 struct {
+	Name  string
+	Items []*interface{}
+	Sub   *C08PI3
+}
+type C08PI4 struct {
+	Meta *interface{}
+	L, R *C08PI4
+	M    map[string]*interface{}
+	K    int
+}
+
+func c08PIValue(i int) *interface{} {
+	var v interface{}
+	switch i % 5 {
+	case 0:
+		v = i
+	case 1:
+		v = []interface{}{i, "x", true}
+	case 2:
+		v = map[string]interface{}{"k": i, "l": []int{1, 2}}
+	case 3:
+		v = C08Link{V: i, Next: &C08Link{V: i + 1}}
+	default:
+		v = "s" + strconv.Itoa(i)
+	}
+	return &v
+}
+
+func c08PIShapes(depth int) []interface{} {
+	var a *C08PI1
+	var b *C08PI2
+	var c *C08PI3
+	var d *C08PI4
+	for i := 0; i < depth; i++ {
+		a = &C08PI1{V: c08PIValue(i), Next: a}
+		b = &C08PI2{Next: b, Tag: "t" + strconv.Itoa(i), V: c08PIValue(i + 1), N: i}
+		c = &C08PI3{Name: "n" + strconv.Itoa(i), Items: []*interface{}{c08PIValue(i), nil, c08PIValue(i + 2)}, Sub: c}
+		d = &C08PI4{Meta: c08PIValue(i + 3), L: d, M: map[string]*interface{}{"m": c08PIValue(i)}, K: i}
+		if i%2 == 1 {
+			d.R = &C08PI4{Meta: c08PIValue(i), K: -i}
+		}
+	}
+	return []interface{}{a, b, c, d}
 }
 
 // a thin recursive shape for the deepest nestings (the indented text grows with the square of the depth)
@@ -192,6 +251,13 @@ func c08Chain(depth int, r interface{ Intn(int) int }) *C08Node {
 		}
 		if i%5 == 0 {
 			m.T = &C08GCText{i}
+		}
+		if i%3 == 1 {
+			var held interface{} = []interface{}{i, "pi", map[string]interface{}{"k": true}}
+			if i%2 == 0 {
+				held = C08Link{V: i}
+			}
+			m.PI = &held
 		}
 		n = m
 	}
@@ -397,6 +463,11 @@ func runC08Child(o *Out) {
 		run(fmt.Sprintf("link chain depth %d twice in a slice", d), []*C08Link{c08LinkChain(d), c08LinkChain(d / 2)}, false)
 		run(fmt.Sprintf("tree chain depth %d", d), c08TreeChain(d), false)
 		run(fmt.Sprintf("shared leaf below %d links", d), c08SharedChain(d), false)
+		if d <= 50 {
+			for k, v := range c08PIShapes(d) {
+				run(fmt.Sprintf("*interface{} members, shape %d, depth %d", k+1, d), v, false)
+			}
+		}
 		runtime.GC()
 		if d > 200 {
 			continue // the fat shapes below produce text quadratic in the depth times their width
@@ -532,6 +603,7 @@ func runC08Probe(o *Out) {
 }
 
 func runC08(o *Out) {
+	c08CycleCases(o)
 	if self, err := os.Executable(); err == nil {
 		for name := range c08Probes() {
 			cctx, cancel := context.WithTimeout(context.Background(), 120*time.Second)
